@@ -2,11 +2,12 @@ mod core;
 mod directed;
 mod json;
 mod rng;
+mod wl;
 
 use json::J;
 use std::panic::{catch_unwind, AssertUnwindSafe};
 
-fn panic_message(e: Box<dyn std::any::Any + Send>) -> String {
+pub fn panic_message(e: Box<dyn std::any::Any + Send>) -> String {
     if let Some(s) = e.downcast_ref::<&str>() {
         s.to_string()
     } else if let Some(s) = e.downcast_ref::<String>() {
@@ -78,6 +79,59 @@ fn main() {
                 println!("{}", j.to_string());
                 0
             }
+        }
+        "lifecycle" => {
+            quiet_panics();
+            let len: usize = args[2].parse().unwrap();
+            let shard: u64 = args[3].parse().unwrap();
+            let nshards: u64 = args[4].parse().unwrap();
+            println!("{}", wl::lifecycle::run(len, shard, nshards).to_string());
+            0
+        }
+        "lifecycle-one" => {
+            let codes: Vec<usize> = args[2].split(',').map(|c| c.parse().unwrap()).collect();
+            match wl::lifecycle::run_sequence(&codes) {
+                wl::lifecycle::Outcome::Violation(m) => {
+                    println!("VIOLATION C10 {:?}: {m}", codes.iter().map(|c| wl::lifecycle::act(*c)).collect::<Vec<_>>());
+                    1
+                }
+                _ => 0,
+            }
+        }
+        "limits-heights" => {
+            quiet_panics();
+            let lo: usize = args[2].parse().unwrap();
+            let hi: usize = args[3].parse().unwrap();
+            let j = wl::limits::run_heights(lo, hi);
+            let bad = j.to_string().contains("\"property\"");
+            println!("{}", j.to_string());
+            if bad && args.get(4).map(|s| s.as_str()) == Some("--replay") { 1 } else { 0 }
+        }
+        "limits-misuse" => {
+            quiet_panics();
+            let name = args[2].as_str();
+            let r = wl::limits::misuse_case(name);
+            let (status, detail) = match &r { Ok(m) => ("pass", m.clone()), Err(m) => ("fail", m.clone()) };
+            println!("{}", J::obj(vec![("case", J::s(name)), ("status", J::s(status)), ("detail", J::s(detail))]).to_string());
+            0
+        }
+        "list-misuse" => {
+            for m in wl::limits::MISUSE { println!("{m}"); }
+            0
+        }
+        "memo" => {
+            quiet_panics();
+            let seed: u64 = args[2].parse().unwrap();
+            let shard: u64 = args[3].parse().unwrap();
+            let count: u64 = args[4].parse().unwrap();
+            println!("{}", wl::memo::run(seed, shard, count).to_string());
+            0
+        }
+        "memo-one" => {
+            quiet_panics();
+            let o = wl::memo::run_history(args[2].parse().unwrap());
+            for a in &o.actions { println!("{a}"); }
+            if let Some(m) = o.violation { println!("VIOLATION C20 {m}"); 1 } else { 0 }
         }
         "list-directed" => {
             for sc in directed::all() {
